@@ -8,6 +8,7 @@ import itertools
 import xml.etree.ElementTree as ET
 from typing import Any, Optional, Tuple, Callable, Iterable, Sequence
 import math
+from xml.sax import saxutils
 
 
 # local imports
@@ -128,7 +129,9 @@ def tostring_unclosed_elements(elem: ET.Element) -> bytes:
     Drop-in replacement for xml.etree.ElementTree.tostring().
     """
     if len(elem) == 0:
-        text = "<{}>{}{}".format(elem.tag, elem.text or "", elem.tail or "")
+        text = "<{}>{}{}".format(
+            elem.tag, saxutils.escape(elem.text or ""), elem.tail or ""
+        )
         output = bytes(text, "utf_8")
     else:
         output = bytes("<{}>{}".format(elem.tag, elem.tail or ""), "utf_8")
